@@ -88,7 +88,7 @@ pub(crate) fn heu_rand(adf: &Adf, interpr: &[Term]) -> Option<(Var, Term)> {
     }
     let mut rng = adf.rng.borrow_mut();
     if let Ok(position) = usize::try_from(rng.next_u64() % (possible.len() as u64)) {
-        Some((Var::from(position), rng.gen_bool(0.5).into()))
+        Some((Var::from(possible[position].0), rng.gen_bool(0.5).into()))
     } else {
         None
     }
